@@ -3,7 +3,8 @@
 (* Backend::stop() and REAL log calls recorded by harness/h_stop (shim atomic, script-chosen load values). Contract: when *)
 (* stop() has returned (the backend thread has terminated), every statement whose log call completed before the stop     *)
 (* was requested has been written to the sink; nothing is written twice; when flush_log() returns the caller's earlier    *)
-(* statements are written and the writes happen-before the return (C06). A line {"e":"init"} starts a new execution.      *)
+(* statements are written and the writes happen-before the return (C06); when remove_logger_blocking() returns the logger *)
+(* is gone, its sink destroyed, and the destruction happens-before the return (C17). {"e":"init"} starts a new execution.  *)
 EXTENDS Integers, Sequences, TLC, Json, IOUtils
 TraceLog == ndJsonDeserialize(IOEnv.TRACE)
 VARIABLES l, m
@@ -17,6 +18,9 @@ MStep(x, e) ==
     [] e.e = "flushed" -> Check(Check(x, e.delivered >= x.atflush,
                                       "flush_log() returned while statements the caller logged before it were unwritten"),
                                 e.visible, "flush_log() returned but the sink writes are not ordered before the caller (data race on the destination)")
+    [] e.e = "removed" -> Check(Check(x, e.sinkdead /\ e.loggers = 0,
+                                      "remove_logger_blocking() returned before the removal had completed (logger still registered or its sink alive)"),
+                                e.visible, "remove_logger_blocking() returned but the destruction of the sink is not ordered before the caller")
     [] e.e = "ycommitted" -> [x EXCEPT !.ycommitted = e.n]
     [] e.e = "joined" -> [x EXCEPT !.yjoined = x.ycommitted]       \* the second thread has ended and X has joined it
     [] e.e = "stopreq" -> [x EXCEPT !.atstop = x.committed, !.yowed = IF x.yjoined >= 0 THEN x.yjoined ELSE 0]
